@@ -56,6 +56,40 @@ def _cvc5_check(smt2, ms):
     return out, time.time() - t
 
 
+def solve_canary(job):
+    """A canary clause is expected to be false: short complete attempt, then the finite-instance refuter straight away."""
+    name, smt2 = job
+    log = []
+    try:
+        r, dt, model, reason = _z3_check(smt2, min(Z3_MS, 5000), 0)
+    except Exception as e:
+        return dict(name=name, verdict="error", backend="z3", seconds=0.0, model="", log=[repr(e)[:300]])
+    total = dt
+    log.append("z3:%s:%.2fs" % (r, dt))
+    if r == "unsat":
+        return dict(name=name, verdict="discharged", backend="z3", seconds=total, model="", log=log)
+    if r == "sat":
+        return dict(name=name, verdict="refuted", backend="z3", seconds=total, model=model, log=log)
+    try:
+        from . import refute
+        for n in (2, 3):
+            rf, dtf, mf = refute.finite_instance_check(smt2, n=n, timeout_ms=FIN_MS)
+            total += dtf
+            log.append("finite-instance(N=%d):%s:%.2fs" % (n, rf, dtf))
+            if rf == "sat":
+                return dict(name=name, verdict="refuted-finite", backend="z3-finite-instance(N=%d)" % n, seconds=total, model=mf, log=log)
+            if rf == "unknown":
+                break
+    except Exception as e:
+        log.append("finite-instance:error:%r" % (e,))
+    r2, dt2 = _cvc5_check(smt2, min(CVC5_MS, 5000))
+    total += dt2
+    log.append("cvc5:%s:%.2fs" % (r2, dt2))
+    if r2 == "unsat":
+        return dict(name=name, verdict="discharged", backend="cvc5", seconds=total, model="", log=log)
+    return dict(name=name, verdict="undecided", backend="-", seconds=total, model="", log=log)
+
+
 def solve_one(job):
     name, smt2 = job
     log = []
@@ -111,13 +145,14 @@ def solve_one(job):
     return dict(name=name, verdict="undecided", backend="-", seconds=total, model="", log=log)
 
 
-def discharge(obligations, workers=None):
+def discharge(obligations, workers=None, canary=False):
     """obligations: list of engine.Obligation. Returns list of result dicts in the same order."""
     jobs = [(o.name + " [" + o.note + "]", o.smt2()) for o in obligations]
     workers = workers or min(16, os.cpu_count() or 4)
+    fn = solve_canary if canary else solve_one
     if not jobs:
         return []
     if len(jobs) <= 2:
-        return [solve_one(j) for j in jobs]
+        return [fn(j) for j in jobs]
     with ProcessPoolExecutor(max_workers=workers) as ex:
-        return list(ex.map(solve_one, jobs, chunksize=1))
+        return list(ex.map(fn, jobs, chunksize=1))
